@@ -9,7 +9,7 @@ LEVEL = "model_checking"
 tlc = fnspec.tlc
 
 NSHARDS = 16
-VARIANTS = {"quick": 2, "thorough": 3}
+VARIANTS = {"quick": 2, "thorough": 2}
 NRANDOM = {"quick": 250, "thorough": 4000}        # per shard
 
 
@@ -43,7 +43,7 @@ def _violations(failures):
 
 
 def _selftest(ctx, files):
-  """A corrupted recorded case must be rejected by the trace specification (three kinds)."""
+  """Corrupted recorded cases must be rejected by the trace specification, the recorded ones accepted."""
   valid = invalid = None
   for f in files:
     for case in json.load(open(f)):
@@ -60,22 +60,22 @@ def _selftest(ctx, files):
   def shifted(case):
     case["out"][-1] += 1
     return case
-  def dropped(case):
-    case["out"] = case["out"][1:]
-    case["us"] = case["us"][1:]
-    return case
-  def accepted(case):
-    case["exc"] = ""
-    return case
-  for name, base, mutate in (("shifted", valid, shifted), ("dropped", valid, dropped),
-                             ("accepted", invalid, accepted)):
-    p = os.path.join(ctx.workdir, "st-%s.json" % name)
-    json.dump([base], open(p, "w"))
-    if not fnspec.mutation_selftest("Trace_Schedule", p, mutate, ctx.workdir):
-      raise tlc.MachineryError("self-test: corrupted case (%s) was accepted by Trace_Schedule" % name)
-    # ... and the uncorrupted case is accepted
-    if fnspec.mutation_selftest("Trace_Schedule", p, lambda c: c, ctx.workdir):
-      raise tlc.MachineryError("self-test: recorded case (%s) unexpectedly rejected" % name)
+  p = os.path.join(ctx.workdir, "st-shifted.json")
+  json.dump([valid], open(p, "w"))
+  if not fnspec.mutation_selftest("Trace_Schedule", p, shifted, ctx.workdir):
+    raise tlc.MachineryError("self-test: a shifted occurrence was accepted by Trace_Schedule")
+  # further corruptions in one go: [recorded, dropped first result, recorded invalid, invalid accepted, wrong class]
+  cp = lambda c: json.loads(json.dumps(c))
+  dropped, accepted, wrong = cp(valid), cp(invalid), cp(invalid)
+  dropped["out"], dropped["us"] = dropped["out"][1:], dropped["us"][1:]
+  accepted["exc"] = ""
+  wrong["exc"] = "KeyError"
+  p = os.path.join(ctx.workdir, "st-more.json")
+  json.dump([valid, dropped, invalid, accepted, wrong], open(p, "w"))
+  failures, _n, _w = fnspec.judge("Trace_Schedule", [p], ctx.workdir)
+  got = sorted((f["i"], tuple(f["c"])) for f in failures)
+  if got != [(2, ("C35.occ",)), (4, ("C35.invalid",)), (5, ("C35.invalid",))]:
+    raise tlc.MachineryError("self-test: Trace_Schedule judged the corrupted cases as %s" % (got,))
 
 
 def run(ctx):
